@@ -110,6 +110,15 @@ claim("C06", "exploration",
       "Names outside the 17 classes and prefixes outside the 4 are not covered; hasattr() on a twin property is not an effect.",
       "DESIGN.md §4 C06")
 
+claim("C20", "exploration",
+      "property-based testing (Hypothesis): generated directory trees with file sizes bucketed around multiples of the "
+      "chunk size, chunk sizes, filters and directions; recursive byte-for-byte comparison against the filtered source",
+      "Trees, chunk sizes and filters are generated with the boundary cases the statement lists as named buckets; the "
+      "oracle is the source tree minus what the filter rejects, compared path by path and byte by byte after a real "
+      "upload/download over a classic connection pair.",
+      "Both peers share one filesystem; names never contain '/' or NUL.",
+      "DESIGN.md §4 C20")
+
 NOT_YET = "check not built yet in this revision (see DESIGN.md §8 build order)"
 
 
